@@ -2,7 +2,8 @@
   Known-finding regions of property C09 as decidable predicates, shared by the driver (which names
   the region a case lies in) and by Proofs/C09.lean (whose `_partial` theorems exclude exactly these
   regions), plus the dispatch of the specification by method.
-  Regions left: C09.mix.level, C09.tuple.hashCollision, C09.tuple.hashZero. The former hazard regions
+  Regions left: C09.mix.level, C09.tuple.hashCollision, C09.tuple.hashZero (C09.tab.levelWrap and C09.tup.nested, found and recorded
+  in the deepening round, are repaired: 2c67aef, 4db32b5 — no region). The former hazard regions
   C09.{put,insert,concat,set}.nullDeref (named by the driver from a `hazard` outcome of the model) are
   repaired (9e8652f): the model has no hazard outcome there any more, so no region exists for them.
 -/
@@ -68,26 +69,9 @@ def memberRegion (m : Member) (recv : Val) (args : List Val) : Option String :=
     else none
   | _, _ => none
 
-/-- C09.tup.nested — `tup(…)` refuses a tuple / table item only through the STATIC type of the argument expression
-(TUPExpression::parse); when that type is opaque (a function parameter, …) the value() method checks only for the untyped
-null, and a tuple holding a tuple or a table is built. -/
-def tupNested (args : List Val) : Bool :=
-  args.all (fun a => a.type.major != .none) && args.any (fun a => a.type.level > 0 || a.type.major == .tup)
-
-def tupRegion (args : List Val) : Option String :=
-  if tupNested args then some "C09.tup.nested" else none
-
-/-- C09.tab.levelWrap — the dimension limit TYPE_LEVEL_MAX = 255 is tested by `level() == 254` on the non-null-count path
-only: `tab(<null count>, x)` with `x` of 254 dimensions returns a null of 255 dimensions, and with an element of 255
-dimensions `levelUp()` wraps the `uint8_t` level to 0. -/
-def levelWrap (args : List Val) : Bool :=
-  match args with
-  | [n, x] => (n.isNull && x.type.level ≥ 254) || x.type.level ≥ 255
-  | _ => false
-
 def tabRegion (args : List Val) : Option String :=
   match args with
-  | [n, x] => if hashZero x then some "C09.tuple.hashZero" else if levelWrap [n, x] then some "C09.tab.levelWrap" else none
+  | [_, x] => if hashZero x then some "C09.tuple.hashZero" else none
   | _ => none
 
 end BlocV.KF
